@@ -732,16 +732,18 @@ impl Vm {
         if expr.is_vector() {
             let vector = expr.as_vector().unwrap();
 
-            let new_vector = self.heap.put(VCell::vector(vec![]));
-            lambda.emit(OpCode::MovImmediate);
-            lambda.emit(new_vector);
-            lambda.emit(VCell::Acc);
-
+            // Every evaluation of the template yields a newly allocated vector:
+            // push the elements and apply the vector constructor.
             for it in vector {
-                lambda.emit(OpCode::PushAcc);
                 self.compile_quasiquote(lambda, it, depth)?;
-                lambda.emit(OpCode::VPushAcc);
+                lambda.emit(OpCode::PushAcc);
             }
+            lambda.emit(OpCode::PushImmediate);
+            lambda.emit(VCell::ArgumentCount(vector.len()));
+            lambda.emit(OpCode::MovImmediate);
+            lambda.emit(crate::vm::builtin::vector_constructor());
+            lambda.emit(VCell::Acc);
+            lambda.emit(OpCode::CallAcc);
 
             return Ok(());
         }
